@@ -402,8 +402,8 @@ def do_determinism(tier, seed):
         rep["per_scenario"][b["name"]] = {"seeds": len(ha), "mismatch_workers": mw, "mismatch_fill": mf, "fresh_process_seeds": len(hf), "mismatch_fresh_process": mp}
         rep["seeds"] += len(ha); rep["mismatch_workers"] += mw; rep["mismatch_fill"] += mf; rep["mismatch_fresh_process"] += mp
     rep["wall_s"] = round(time.time() - t0, 1)
-    os.makedirs(os.path.join(OUT, "evidence"), exist_ok=True)
-    json.dump(rep, open(os.path.join(OUT, "evidence", "determinism.json"), "w"), indent=1)
+    os.makedirs(os.path.join(OUT, "reports"), exist_ok=True)
+    json.dump(rep, open(os.path.join(OUT, "reports", "determinism.json"), "w"), indent=1)
     print("determinism: %d seeds x 3 executions (+ fresh process per seed for 16 of each batch), mismatches: %d across worker counts, %d across heap fill patterns, %d fresh-process (%.0fs)" % (rep["seeds"], rep["mismatch_workers"], rep["mismatch_fill"], rep["mismatch_fresh_process"], rep["wall_s"]))
     return 0 if rep["mismatch_workers"] == 0 and rep["mismatch_fill"] == 0 and rep["mismatch_fresh_process"] == 0 else 2
 
